@@ -160,6 +160,27 @@ def run(case):
                "a copy=False operation on a derived object changed the object it was derived from", None,
                dpos=float(np.abs(parent.pos - pos).max()))
     case.check(np.array_equal(src32, pos), "Molecules modified the position array it was constructed from", None)
+    # ---- the same object read, edited in place, and read again (nothing remembered from before the edit)
+    mm = Molecules(pos.copy(), R)
+    _ = mm.x, mm.y, mm.z, mm.local_coordinates((3, 3, 3))
+    ret_r = mm.rotate_by(Q, copy=False)
+    QR = Q * R
+    case.check(ret_r is mm and np.allclose(mm.x, QR.apply([0, 0, 1.0]), atol=1e-5) and
+               np.allclose(mm.y, QR.apply([0, 1.0, 0]), atol=1e-5) and np.allclose(mm.z, QR.apply([1.0, 0, 0]), atol=1e-5),
+               "axes read after an in-place rotation are not those of the rotated molecules", None)
+    lc_ = np.asarray(mm.local_coordinates((3, 3, 3)))
+    lc_f = np.asarray(Molecules(pos.copy(), QR).local_coordinates((3, 3, 3)))
+    case.check(lc_.shape == lc_f.shape and np.allclose(lc_, lc_f, atol=1e-4),
+               "local_coordinates after an in-place rotation differ from those of freshly built molecules", None)
+    p_before = mm.pos.copy()
+    ret_t = mm.translate_internal(tN, copy=False)
+    want_p = p_before + QR.apply(np.asarray(tN, float)[::-1] if False else np.asarray(tN, float)) * 0 + (Molecules(p_before, QR).translate_internal(tN).pos - p_before)
+    case.check(ret_t is mm, "translate_internal(copy=False) did not return the object itself", None)
+    case.check(np.allclose(mm.pos, want_p, atol=1e-4), "translate_internal(copy=False) did not move the object itself", None,
+               moved=float(np.abs(mm.pos - p_before).max()), want=float(np.abs(want_p - p_before).max()))
+    ret_i = mm.rotate_by_rotvec_internal(v1, copy=False)
+    case.check(ret_i is mm and _ang(mm.rotator, QR * Rotation.from_rotvec(v1)) <= ANG if np.ndim(v1) == 1 else ret_i is mm,
+               "rotate_by_rotvec_internal(copy=False) is not the in-place internal rotation", None)
     # ---- world rotation by Euler angles, both coordinate orders, degrees and radians
     seq_e = SEQS[int(rng.integers(0, 12))]
     if rng.random() < 0.5:
